@@ -20,16 +20,13 @@ def escapeLabel (l : BList) : BList :=
 
 /-- (daemon, lower-case full name as on the wire) of a `register` command -/
 def registerOf : Cmd → Option (Nat × BList)
-  | .other ("register" :: d :: ty :: inst :: _) => do
-    let d ← d.toNat?
-    let ty ← bytesOfHex ty
-    let inst ← bytesOfHex inst
+  | .register d ty inst .. =>
     -- the base type (after `._sub.` if any)
     let tyS := String.ofList (ty.map fun b => Char.ofNat b.toNat)
     let base := match tyS.splitOn "._sub." with
       | [_, b] => b.toList.map fun c => UInt8.ofNat c.toNat
       | _ => ty
-    pure (d, lower (inst ++ [0x2E] ++ base))
+    some (d, lower (inst ++ [0x2E] ++ base))
   | _ => none
 
 def cmdChan : Cmd → Option (Nat × Nat)
@@ -47,7 +44,7 @@ def monitorBurst (script : List Cmd) (iters : List Iter) (dut : Nat) : Option St
       match cmdArr[i]? with
       | some c =>
         let d := match c with
-          | .other ("register" :: d :: _) => d.toNat?
+          | .register d .. => some d
           | _ => cmdDaemon c
         if d == some dut then some (i, r, procIter iters k dut) else none
       | none => none
